@@ -73,9 +73,13 @@ func (f FP) matches(o, t int) bool {
 }
 
 // Flt is a Filter call in a sequential history, issued after `After` Log calls.
+// With Settle the goroutine pauses logging and repeats this very request (no
+// other request in between, <= convergeRounds times, yielding) until the result
+// is exactly the matching entries among the last N of everything logged so far.
 type Flt struct {
 	After int `json:"after"`
 	FP
+	Settle bool `json:"settle,omitempty"`
 }
 
 // Prod is one concurrent producer: Count entries, all with owner O; entry i has
@@ -159,11 +163,13 @@ var allFilters = func() []FP {
 // statistics (evidence only, never part of a verdict)
 
 var (
-	statMaxLag      atomic.Int64 // largest |L|-j observed on a Filter(nil,0) in a sequential history
-	statLagging     atomic.Int64 // sequential Filter(nil,0) calls that overtook queued entries (j < |L|)
-	statSeqFilters  atomic.Int64
-	statConcFilters atomic.Int64
-	statConvRounds  atomic.Int64 // largest number of convergence rounds needed
+	statMaxLag       atomic.Int64 // largest |L|-j observed on a Filter(nil,0) in a sequential history
+	statLagging      atomic.Int64 // sequential Filter(nil,0) calls that overtook queued entries (j < |L|)
+	statSeqFilters   atomic.Int64
+	statConcFilters  atomic.Int64
+	statConvRounds   atomic.Int64 // largest number of convergence rounds needed
+	statSettles      atomic.Int64 // settling requests (same request repeated until it is the window of the whole history)
+	statSettleRounds atomic.Int64 // largest number of rounds a settling request needed
 )
 
 func maxInto(a *atomic.Int64, v int64) {
@@ -320,15 +326,50 @@ type seqRun struct {
 
 // filter issues one Filter call and applies the window oracle.
 func (r *seqRun) filter(f FP, phase string) error {
+	_, err := r.filterGot(f, phase)
+	return err
+}
+
+// settle: logging pauses and the same request is repeated. "Once logging stops
+// Filter converges to exactly the matching entries among the N most recently
+// logged" holds for every request, not only for Filter(nil,0): every result
+// must be a window of the reference ring (j non-decreasing), and within
+// convergeRounds calls the result must be the window of the whole history so
+// far. The logger cannot know that logging will resume, so a pause is as good
+// as a stop. (On go9p every round lets the logger goroutine run; the hand-off
+// queue holds 16 entries, the observed number of rounds is reported.)
+func (r *seqRun) settle(f FP) error {
+	rounds := 0
+	for {
+		got, err := r.filterGot(f, "settling")
+		if err != nil {
+			return err
+		}
+		rounds++
+		if windowIs(r.L, r.c.N, r.cur, f, got) {
+			break
+		}
+		if rounds >= convergeRounds {
+			return fmt.Errorf("N=%d: logging paused after %d Log calls, but %d successive %v calls still return serials %s; the matching entries among the last %d logged are %s",
+				r.c.N, r.cur, rounds, f, short(got), r.c.N, short(window(r.L, r.c.N, r.cur, f)))
+		}
+		runtime.Gosched()
+	}
+	maxInto(&statSettleRounds, int64(rounds))
+	statSettles.Add(1)
+	return nil
+}
+
+func (r *seqRun) filterGot(f FP, phase string) ([]int, error) {
 	res := r.w.filter(r.lg, f)
 	statSeqFilters.Add(1)
 	got, err := serialsSeq(res, r.L, r.cur)
 	if err != nil {
-		return fmt.Errorf("N=%d after %d Log calls, %s %v: %v", r.c.N, r.cur, phase, f, err)
+		return nil, fmt.Errorf("N=%d after %d Log calls, %s %v: %v", r.c.N, r.cur, phase, f, err)
 	}
 	j := findJ(r.L, r.c.N, r.jprev, r.cur, f, got)
 	if j < 0 {
-		return fmt.Errorf("N=%d after %d Log calls, %s %v returned serials %s: %s; expected for j=%d: %s, for j=%d: %s",
+		return nil, fmt.Errorf("N=%d after %d Log calls, %s %v returned serials %s: %s; expected for j=%d: %s, for j=%d: %s",
 			r.c.N, r.cur, phase, f, short(got), diagnoseSeq(r.L, r.c.N, r.jprev, r.cur, f, got),
 			r.jprev, short(window(r.L, r.c.N, r.jprev, f)), r.cur, short(window(r.L, r.c.N, r.cur, f)))
 	}
@@ -341,7 +382,7 @@ func (r *seqRun) filter(f FP, phase string) error {
 		}
 	}
 	r.jprev = j
-	return nil
+	return got, nil
 }
 
 // converge repeats Filter(nil,0) until every logged entry is visible, then
@@ -394,7 +435,13 @@ func runSeq(c *Case, w worker) error {
 	fi := 0
 	for {
 		for fi < len(fl) && fl[fi].After == r.cur {
-			if err := r.filter(fl[fi].FP, "mid-history"); err != nil {
+			var err error
+			if fl[fi].Settle {
+				err = r.settle(fl[fi].FP)
+			} else {
+				err = r.filter(fl[fi].FP, "mid-history")
+			}
+			if err != nil {
 				return err
 			}
 			fi++
